@@ -323,7 +323,7 @@ func (vc *FuncVC) step(st *State, fr *Frame, instr ssa.Instruction) []*State {
 		ks, vs := w.sortOf(mt.Key()), w.sortOf(mt.Elem())
 		ref := st.alloc("map")
 		ref.GT = in.Type()
-		dn, dso, vn, vso := mapHeaps(ks, vs)
+		dn, dso, vn, vso := mapHeaps(w, mt)
 		st.heapSet(dn, dso, sto(st.heapGet(dn, dso), ref.T, w.zero(arraySort(ks, SBool))))
 		st.heapSet(vn, vso, sto(st.heapGet(vn, vso), ref.T, w.zero(arraySort(ks, vs))))
 		vc.declCard(ks)
@@ -863,7 +863,7 @@ func (vc *FuncVC) lookup(st *State, fr *Frame, in *ssa.Lookup) any {
 	m := vc.valV(st, fr, in.X)
 	k := vc.valV(st, fr, in.Index)
 	ks, vs, mt := vc.mapSorts(in.X.Type())
-	dn, dso, vn, vso := mapHeaps(ks, vs)
+	dn, dso, vn, vso := mapHeaps(w, mt)
 	vc.checkMapRead(st, fr, in.X, m, in)
 	if ks == SIface {
 		vc.nopanic(st, "map-key-hashable", in, or(eq(k.T, "nilI"), app("comparableT", app("typ", k.T))))
@@ -887,17 +887,18 @@ func (vc *FuncVC) mapUpdate(st *State, fr *Frame, in *ssa.MapUpdate) {
 	m := vc.valV(st, fr, in.Map)
 	k := vc.valV(st, fr, in.Key)
 	v := vc.valV(st, fr, in.Value)
-	ks, vs, _ := vc.mapSorts(in.Map.Type())
+	ks, _, mt := vc.mapSorts(in.Map.Type())
 	vc.nopanic(st, "nil-map-write", in, not(eq(m.T, "0")))
 	if ks == SIface {
 		vc.nopanic(st, "map-key-hashable", in, or(eq(k.T, "nilI"), app("comparableT", app("typ", k.T))))
 	}
 	vc.checkMapWrite(st, fr, in.Map, m, in)
-	vc.mapStore(st, m, k, v, ks, vs)
+	vc.mapStore(st, m, k, v, mt)
 }
 
-func (vc *FuncVC) mapStore(st *State, m, k, v V, ks, vs string) {
-	dn, dso, vn, vso := mapHeaps(ks, vs)
+func (vc *FuncVC) mapStore(st *State, m, k, v V, mt *types.Map) {
+	ks := vc.w.sortOf(mt.Key())
+	dn, dso, vn, vso := mapHeaps(vc.w, mt)
 	dom := st.heapGet(dn, dso)
 	val := st.heapGet(vn, vso)
 	od := sel(dom, m.T)
@@ -910,8 +911,9 @@ func (vc *FuncVC) mapStore(st *State, m, k, v V, ks, vs string) {
 	st.assume(app(">=", app(c, od), "0"))
 }
 
-func (vc *FuncVC) mapDelete(st *State, m, k V, ks, vs string) {
-	dn, dso, _, _ := mapHeaps(ks, vs)
+func (vc *FuncVC) mapDelete(st *State, m, k V, mt *types.Map) {
+	ks := vc.w.sortOf(mt.Key())
+	dn, dso, _, _ := mapHeaps(vc.w, mt)
 	dom := st.heapGet(dn, dso)
 	od := sel(dom, m.T)
 	nd := sto(od, k.T, "false")
@@ -931,7 +933,8 @@ func (vc *FuncVC) rangeInit(st *State, fr *Frame, in *ssa.Range) any {
 	m := vc.valV(st, fr, in.X)
 	ks, vs, mt := vc.mapSorts(in.X.Type())
 	vc.checkMapRead(st, fr, in.X, m, in)
-	dn, dso, _, _ := mapHeaps(ks, vs)
+	dn, dso, _, _ := mapHeaps(vc.w, mt)
+	_ = vs
 	dom0 := ite(eq(m.T, "0"), vc.w.zero(arraySort(ks, SBool)), sel(st.heapGet(dn, dso), m.T))
 	d0 := st.fresh("rangedom", arraySort(ks, SBool))
 	st.assume(eq(d0, dom0))
@@ -952,7 +955,7 @@ func (vc *FuncVC) rangeNext(st *State, fr *Frame, in *ssa.Next) []*State {
 	visited := st.ghost[it.Visited]
 	dom0 := st.ghost[it.Visited+".dom"].T
 	// side condition of T6: the map's domain has not been written since the loop started
-	dn, dso, vn, vso := mapHeaps(it.KS, it.VS)
+	dn, dso, vn, vso := mapHeaps(w, it.MT)
 	curDom := ite(eq(it.Map.T, "0"), w.zero(arraySort(it.KS, SBool)), sel(st.heapGet(dn, dso), it.Map.T))
 	vc.addOblig(st, "range", "range/map-not-resized"+vc.instrOrd(in, "next"), nil, eq(curDom, dom0))
 	// done branch
